@@ -151,6 +151,8 @@ pub struct GenCfg {
     pub min_imp_funcs: usize,
     pub min_globals: usize,
     pub min_imp_globals: usize,
+    /// the imported immutable i32 global that offset / initialiser expressions read may be ANY imported global, not only global 0
+    pub off_global_any: bool,
     pub min_mems: usize,
     pub min_imp_mems: usize,
     /// interleave non-function imports between function imports
@@ -167,6 +169,7 @@ impl GenCfg {
             max_imp_funcs: 3,
             max_funcs: rng.range(1, 6),
             max_imp_globals: 2,
+            off_global_any: false,
             max_globals: 4,
             max_imp_mems: 1,
             max_mems: 2,
@@ -195,6 +198,8 @@ pub struct GenModule {
     pub func_uids: Vec<Option<u32>>,
     pub globals: Vec<GlobalInfo>,
     pub n_imp_globals: u32,
+    /// index of the imported immutable i32 global used by offset / initialiser expressions
+    pub off_global: Option<u32>,
     pub mems: Vec<MemInfo>,
     pub n_imp_mems: u32,
     pub tables: Vec<TableInfo>,
@@ -1302,6 +1307,7 @@ pub fn generate(rng: &mut Rng, prof: Profile, cfg: &GenCfg) -> GenModule {
         T,
         Tag,
     }
+    let off_ord: u32 = if cfg.off_global_any && n_imp_globals > 0 { rng.below(n_imp_globals) as u32 } else { 0 };
     let mut imps: Vec<Imp> = vec![];
     imps.extend(std::iter::repeat(Imp::F).take(n_imp_funcs));
     imps.extend(std::iter::repeat(Imp::G).take(n_imp_globals));
@@ -1342,8 +1348,11 @@ pub fn generate(rng: &mut Rng, prof: Profile, cfg: &GenCfg) -> GenModule {
             }
             Imp::G => {
                 let t = *rng.pick(&[VT::I32, VT::I64, VT::F32, VT::F64]);
-                // the first imported global is an immutable i32 (usable in offset expressions)
-                let (t, m) = if g.n_imp_globals == 0 { (VT::I32, false) } else { (t, rng.bool()) };
+                // one imported global (the first one, unless cfg.off_global_any) is an immutable i32 (usable in offset expressions)
+                let (t, m) = if g.n_imp_globals == off_ord { (VT::I32, false) } else { (t, rng.bool()) };
+                if g.n_imp_globals == off_ord {
+                    g.off_global = Some(off_ord);
+                }
                 import_sec.import("env", &name, EntityType::Global(GlobalType { val_type: t.enc(), mutable: m, shared: false }));
                 g.globals.push(GlobalInfo { ty: t, mutable: m, imported: true });
                 g.n_imp_globals += 1;
@@ -1478,12 +1487,12 @@ pub fn generate(rng: &mut Rng, prof: Profile, cfg: &GenCfg) -> GenModule {
     for _ in 0..n_globals {
         let mutable = rng.bool();
         let c = rng.below(10);
-        if c == 0 && g.n_imp_globals > 0 && !g.globals[0].mutable {
+        if c == 0 && g.off_global.is_some() {
             // init = global.get of the imported immutable i32; made unique through a distinct type mutability pair is not
             // enough, so only one such global per (mutable) value
             if ref_global_kinds_used & (1 << (mutable as u32)) == 0 {
                 ref_global_kinds_used |= 1 << (mutable as u32);
-                glob_sec.global(GlobalType { val_type: ValType::I32, mutable, shared: false }, &ConstExpr::global_get(0));
+                glob_sec.global(GlobalType { val_type: ValType::I32, mutable, shared: false }, &ConstExpr::global_get(g.off_global.unwrap()));
                 g.globals.push(GlobalInfo { ty: VT::I32, mutable, imported: false });
                 continue;
             }
@@ -1593,8 +1602,8 @@ pub fn generate(rng: &mut Rng, prof: Profile, cfg: &GenCfg) -> GenModule {
         for _ in 0..want {
             let len = rng.range(1, 4);
             let funcs: Vec<u32> = (0..len).map(|_| rng.below(nfuncs_total as usize) as u32).collect();
-            let offset = if g.n_imp_globals > 0 && !g.globals[0].mutable && rng.chance(1, 3) {
-                ConstExpr::global_get(0)
+            let offset = if g.off_global.is_some() && rng.chance(1, 3) {
+                ConstExpr::global_get(g.off_global.unwrap())
             } else {
                 ConstExpr::i32_const(rng.below(3) as i32)
             };
@@ -1756,8 +1765,8 @@ pub fn generate(rng: &mut Rng, prof: Profile, cfg: &GenCfg) -> GenModule {
                 let mem = rng.below(g.mems.len()) as u32;
                 let off = if g.mems[mem as usize].mem64 {
                     ConstExpr::i64_const(rng.below(64) as i64)
-                } else if g.n_imp_globals > 0 && !g.globals[0].mutable && rng.chance(1, 3) {
-                    ConstExpr::global_get(0)
+                } else if g.off_global.is_some() && rng.chance(1, 3) {
+                    ConstExpr::global_get(g.off_global.unwrap())
                 } else {
                     ConstExpr::i32_const(rng.below(64) as i32)
                 };
